@@ -99,6 +99,69 @@ class PEval:
             return None, v
         return None, v
 
+    MAX_ITER = 256
+
+    def loop(self, st, env, fn, depth):
+        if st.get("k") == "ForStmt" and st.get("init") is not None:
+            r = self.inplace([st["init"]], env, fn, depth)
+            if r is not None:
+                raise NotClosedForm("control flow in a loop initialiser")
+        for it in range(self.MAX_ITER):
+            if st.get("cond") is not None:
+                truth, _ = self.cond(st["cond"], env, fn, depth)
+                if truth is None:
+                    raise NotClosedForm("loop condition depends on a symbolic value")
+                if not truth:
+                    return None
+            r = self.inplace([st.get("body")], env, fn, depth)
+            if r is not None:
+                if r[0] == "return":
+                    return r
+                if r[0] == "break":
+                    return None
+            if st.get("k") == "ForStmt" and st.get("inc") is not None:
+                self.inplace([st["inc"]], env, fn, depth)
+        raise NotClosedForm("loop does not terminate within %d iterations" % self.MAX_ITER)
+
+    def inplace(self, lst, env, fn, depth):
+        """sequential execution that updates env in place; every branch condition must be decided.
+        Returns None (fell through), ("return", value), ("break",) or ("continue",)"""
+        for st in lst:
+            if st is None:
+                continue
+            k = st.get("k")
+            if k == "CompoundStmt":
+                r = self.inplace(st.get("c", []), env, fn, depth)
+                if r is not None:
+                    return r
+                continue
+            if k == "ReturnStmt":
+                return ("return", self.expr(st["c"][0], env, fn, depth) if st.get("c") else None)
+            if k == "BreakStmt":
+                return ("break",)
+            if k == "ContinueStmt":
+                return ("continue",)
+            if k == "IfStmt":
+                truth, _ = self.cond(st["cond"], env, fn, depth)
+                if truth is None:
+                    raise NotClosedForm("branch inside a loop depends on a symbolic value")
+                r = self.inplace([st.get("then") if truth else st.get("else")], env, fn, depth)
+                if r is not None:
+                    return r
+                continue
+            if k in ("ForStmt", "WhileStmt"):
+                r = self.loop(st, env, fn, depth)
+                if r is not None:
+                    return r
+                continue
+            if k in ("DeclStmt", "BinaryOperator", "CompoundAssignOperator", "UnaryOperator", "NullStmt"):
+                r = self.stmts([st], env, fn, depth)      # straight-line statements update env in place
+                if r is not None:
+                    raise NotClosedForm("unexpected value")
+                continue
+            raise NotClosedForm("statement " + str(k) + " inside a loop")
+        return None
+
     def stmts(self, lst, env, fn, depth):
         """value returned by executing the statement list (None if it falls through)"""
         for i, st in enumerate(lst):
@@ -182,7 +245,7 @@ class PEval:
                     elif cur is None:
                         raise NotClosedForm("compound assignment to an unset variable")
                     else:
-                        env[lhs["did"]] = cur * r if op == "*=" else cur + r if op == "+=" else cur - r if op == "-=" else cur / r
+                        env[lhs["did"]] = cur * r if op == "*=" else cur + r if op == "+=" else cur - r if op == "-=" else (sympy.floor(cur / r) if st.get("t") in ("int", "long", "size_t", "unsigned long", "unsigned int", "long long") else cur / r)
                     continue
                 raise NotClosedForm("assignment to " + txt(lhs))
             if k == "UnaryOperator" and st.get("op") in ("++", "--"):
@@ -191,7 +254,13 @@ class PEval:
                     env[tgt["did"]] = env[tgt["did"]] + (1 if st["op"] == "++" else -1)
                     continue
                 raise NotClosedForm("increment of " + txt(tgt))
-            if k in ("ForStmt", "WhileStmt", "DoStmt", "CXXForRangeStmt"):
+            if k in ("ForStmt", "WhileStmt"):
+                # a loop is folded only when every condition it evaluates is decided by the (concrete) environment
+                r = self.loop(st, env, fn, depth)
+                if r is not None and r[0] == "return":
+                    return r[1]
+                continue
+            if k in ("DoStmt", "CXXForRangeStmt"):
                 raise NotClosedForm("loop")
             if k == "NullStmt":
                 continue
